@@ -3211,7 +3211,12 @@ define_enum_type(InterrogateType &itype, CPPEnumType *cpptype) {
 
     InterrogateType::EnumValue evalue;
     evalue._name = element->get_simple_name();
-    evalue._scoped_name = descope(element->get_local_name(&parser));
+    if (cpptype->is_scoped()) {
+      // The values of a scoped enum live in the scope of the enum itself.
+      evalue._scoped_name = itype._scoped_name + "::" + evalue._name;
+    } else {
+      evalue._scoped_name = descope(element->get_local_name(&parser));
+    }
 
     if (element->_leading_comment != nullptr) {
       evalue._comment = trim_blanks(element->_leading_comment->_comment);
